@@ -490,7 +490,7 @@ func (x *Exec) load(s *State, prefix string, t types.Type, rgn, off Term) Value 
 		// since the function was entered names an object that existed on entry: it
 		// differs from every region this function allocates.
 		if strings.HasSuffix(l.path, ".rgn") && l.sort == SBV64 {
-			if m, ok := s.mem[prefix+l.path]; ok && m.S == lazyMemName(prefix+l.path, 0) {
+			if m, ok := s.mem[prefix+l.path]; ok && strings.HasPrefix(m.S, "mem$") && strings.HasSuffix(m.S, "!0") && !strings.ContainsAny(m.S, " (") {
 				key := "pre:" + r.S
 				if !s.embSeen[key] {
 					s.embSeen[key] = true
